@@ -1,65 +1,89 @@
 (* C20 — inputs changed during a link make the link fail.  One input path over time.  The file system stamps every
-   modification with the current time of a clock that only moves forward; wild records the modification time when it
-   opens the file (FileData::open, before the mmap), reads through the mapping whenever it likes, and at the end
-   (Linker::finish_link -> FileLoader::verify_inputs_unchanged, run whether or not linking succeeded) compares the
-   path's current modification time with the recorded one. *)
+   modification with the current time of a clock that only moves forward and gives every new file a fresh inode; wild
+   records the file's identity — modification time, size, device and inode — when it opens the file (FileData::open,
+   before the mmap), reads through the mapping whenever it likes, and at the end (Linker::finish_link ->
+   FileLoader::verify_inputs_unchanged, run whether or not linking succeeded) compares the identity of what the path
+   names now with the recorded one. *)
 From Coq Require Import ZArith List Bool Lia.
 Import ListNotations.
 Open Scope Z_scope.
 
 Inductive change :=
 | Rewrite        (* open for writing, truncate, write: same inode, new mtime *)
-| Append
+| Append         (* same inode, new mtime, larger *)
 | Touch          (* utimensat(now) *)
 | ReplaceFresh   (* a new file renamed over the path: new inode, stamped now *)
-| ReplaceKeepingMtime.   (* a new file renamed over the path that carries the OLD file's mtime (cp -p, rsync -t) *)
+| ReplaceKeepingMtime    (* a new file renamed over the path that carries the OLD file's mtime and size (cp -p, rsync -t) *)
+| RewriteRestoringMtime. (* bytes overwritten in place, same length, and the old mtime put back with utimensat *)
 
 Inductive event :=
 | Env (c : change)
 | Tick                     (* time passes *)
-| WOpen                    (* wild: File::open + metadata().modified() *)
+| WOpen                    (* wild: File::open + metadata() *)
 | WMap                     (* wild: mmap *)
 | WRead                    (* wild: reads bytes through the mapping *)
 | WVerify.                 (* wild: verify_inputs_unchanged *)
 
+Record ident := { i_mtime : Z; i_ino : Z; i_size : Z }.
+Definition ident_eqb (a b : ident) : bool := (i_mtime a =? i_mtime b) && (i_ino a =? i_ino b) && (i_size a =? i_size b).
+
 Record st := {
   clock : Z;               (* strictly increases at every event *)
-  mtime : Z;               (* of whatever the path names now *)
+  cur : ident;             (* of whatever the path names now *)
   version : Z;             (* identifies the contents the path names now *)
-  recorded : option Z;     (* wild's FileData::modification_time *)
+  recorded : option ident; (* wild's FileData::identity *)
   seen : list Z;           (* content versions wild has read *)
   verdict : option bool;   (* Some true = inputs unchanged, Some false = "was changed while we were running" *)
 }.
 
-Definition init : st := {| clock := 1; mtime := 0; version := 0; recorded := None; seen := []; verdict := None |}.
+Definition init : st :=
+  {| clock := 1; cur := {| i_mtime := 0; i_ino := 0; i_size := 100 |}; version := 0; recorded := None; seen := []; verdict := None |}.
+
+Definition apply_change (now : Z) (c : change) (i : ident) : ident :=
+  match c with
+  | Rewrite | Touch => {| i_mtime := now; i_ino := i_ino i; i_size := i_size i |}
+  | Append => {| i_mtime := now; i_ino := i_ino i; i_size := i_size i + 1 |}
+  | ReplaceFresh => {| i_mtime := now; i_ino := now; i_size := i_size i |}
+  | ReplaceKeepingMtime => {| i_mtime := i_mtime i; i_ino := now; i_size := i_size i |}
+  | RewriteRestoringMtime => i
+  end.
 
 Definition step (s : st) (e : event) : st :=
   let now := clock s + 1 in
   match e with
-  | Tick => {| clock := now; mtime := mtime s; version := version s; recorded := recorded s; seen := seen s; verdict := verdict s |}
-  | Env ReplaceKeepingMtime =>
-      {| clock := now; mtime := mtime s; version := now; recorded := recorded s; seen := seen s; verdict := verdict s |}
+  | Tick => {| clock := now; cur := cur s; version := version s; recorded := recorded s; seen := seen s; verdict := verdict s |}
   | Env Touch =>
-      {| clock := now; mtime := now; version := version s; recorded := recorded s; seen := seen s; verdict := verdict s |}
-  | Env _ =>
-      {| clock := now; mtime := now; version := now; recorded := recorded s; seen := seen s; verdict := verdict s |}
-  | WOpen => {| clock := now; mtime := mtime s; version := version s; recorded := Some (mtime s); seen := seen s; verdict := verdict s |}
-  | WMap => {| clock := now; mtime := mtime s; version := version s; recorded := recorded s; seen := seen s; verdict := verdict s |}
-  | WRead => {| clock := now; mtime := mtime s; version := version s; recorded := recorded s; seen := version s :: seen s; verdict := verdict s |}
+      {| clock := now; cur := apply_change now Touch (cur s); version := version s; recorded := recorded s; seen := seen s; verdict := verdict s |}
+  | Env c =>
+      {| clock := now; cur := apply_change now c (cur s); version := now; recorded := recorded s; seen := seen s; verdict := verdict s |}
+  | WOpen => {| clock := now; cur := cur s; version := version s; recorded := Some (cur s); seen := seen s; verdict := verdict s |}
+  | WMap => {| clock := now; cur := cur s; version := version s; recorded := recorded s; seen := seen s; verdict := verdict s |}
+  | WRead => {| clock := now; cur := cur s; version := version s; recorded := recorded s; seen := version s :: seen s; verdict := verdict s |}
   | WVerify =>
-      {| clock := now; mtime := mtime s; version := version s; recorded := recorded s; seen := seen s;
-         verdict := match recorded s with Some r => Some (r =? mtime s) | None => verdict s end |}
+      {| clock := now; cur := cur s; version := version s; recorded := recorded s; seen := seen s;
+         verdict := match recorded s with Some r => Some (ident_eqb r (cur s)) | None => verdict s end |}
   end.
 
 Definition run (evs : list event) : st := fold_left step evs init.
 
-(* the variant in which the modification time is recorded only after the mapping exists *)
+(* the variant in which the identity is recorded only after the mapping exists *)
 Definition step_late (s : st) (e : event) : st :=
   match e with
-  | WOpen => {| clock := clock s + 1; mtime := mtime s; version := version s; recorded := recorded s; seen := seen s; verdict := verdict s |}
-  | WMap => {| clock := clock s + 1; mtime := mtime s; version := version s; recorded := Some (mtime s); seen := seen s; verdict := verdict s |}
+  | WOpen => {| clock := clock s + 1; cur := cur s; version := version s; recorded := recorded s; seen := seen s; verdict := verdict s |}
+  | WMap => {| clock := clock s + 1; cur := cur s; version := version s; recorded := Some (cur s); seen := seen s; verdict := verdict s |}
   | _ => step s e
   end.
 Definition run_late (evs : list event) : st := fold_left step_late evs init.
 
-Definition stamps_now (c : change) : bool := match c with ReplaceKeepingMtime => false | _ => true end.
+(* the pinned tree: only the modification time was recorded and compared *)
+Definition step_mtime_only (s : st) (e : event) : st :=
+  match e with
+  | WVerify =>
+      {| clock := clock s + 1; cur := cur s; version := version s; recorded := recorded s; seen := seen s;
+         verdict := match recorded s with Some r => Some (i_mtime r =? i_mtime (cur s)) | None => verdict s end |}
+  | _ => step s e
+  end.
+Definition run_mtime_only (evs : list event) : st := fold_left step_mtime_only evs init.
+
+(* changes that leave a trace in the file's metadata *)
+Definition visible (c : change) : bool := match c with RewriteRestoringMtime => false | _ => true end.
